@@ -7,8 +7,13 @@
 (* generated behaviours are restricted to those a harness can realize       *)
 (* deterministically (the unrestricted model is what MC_* and the trace     *)
 (* validation of free-running executions use):                              *)
-(*   - once the context is done the loop's next step is ExitCancelled, and  *)
-(*     the ticker goroutine does not signal any more;                       *)
+(*   - once the context is done the loop's next step out of its select is   *)
+(*     ExitCancelled (a Receive that was running when the context ended     *)
+(*     may finish first: HandOffBegin, Cancel, ..., HandOffEnd is generated *)
+(*     on purpose -- when the loop comes back to its select the context is  *)
+(*     done AND the transition goroutine has seen it, the situation in      *)
+(*     which only the context error may be returned), and the ticker        *)
+(*     goroutine does not signal any more;                                  *)
 (*   - nothing is recorded after Execute returned.                          *)
 EXTENDS AsyncMachine, TLC, Json, CSV, IOUtils
 
@@ -17,17 +22,18 @@ VARIABLES hist,
           nPre    \* sampling only: arrivals before Execute started
 gvars == <<vars, hist, plan, nPre>>
 
-Plans == [cancelAt : 0..(2 * N), fkind : {"none", "none2", "none3", "initiate", "next"}, fk : States]
+\* cir: cancel only while the loop is inside Receive
+Plans == [cancelAt : 0..(2 * N), cir : BOOLEAN, fkind : {"none", "none2", "none3", "initiate", "next"}, fk : States]
 
 HistProj(h) == [t \in States |-> [j \in 1..Len(h[t]) |-> <<h[t][j].s, h[t][j].n>>]]
 
-Proj == [pc |-> pc, cur |-> cur, init |-> init, history |-> HistProj(history),
+Proj == [pc |-> pc, lp |-> lp, cur |-> cur, init |-> init, history |-> HistProj(history),
          qlen |-> Len(queue), ctxDone |-> ctxDone, registered |-> registered,
          visible |-> HistProj(visible[cur]), executed |-> executed, outcome |-> outcome]
 
 Log(a, t, s, n) == hist' = Append(hist, [a |-> a, t |-> t, s |-> s, n |-> n, st |-> Proj'])
 
-GInit == Init /\ hist = <<>> /\ plan = [cancelAt |-> 0, fkind |-> "none", fk |-> 1] /\ nPre = 0
+GInit == Init /\ hist = <<>> /\ plan = [cancelAt |-> 0, cir |-> FALSE, fkind |-> "none", fk |-> 1] /\ nPre = 0
 
 MayFail(kind) == plan.fkind = kind /\ plan.fk = cur
 ArriveOk == registered \/ (pc = "idle" /\ nPre < 2)
@@ -36,7 +42,8 @@ GNext ==
     /\ pc # "returned"
     /\ \/ Exec /\ Log("Exec", 0, 0, 0) /\ plan' \in Plans
        \/ /\ UNCHANGED plan
-          /\ \/ ~ctxDone /\ HandOff /\ Log("HandOff", 0, 0, 0)
+          /\ \/ ~ctxDone /\ HandOffBegin /\ Log("HandOffBegin", 0, 0, 0)
+             \/ HandOffEnd /\ Log("HandOffEnd", 0, 0, 0)
              \/ ~MayFail("initiate") /\ InitiateOk /\ Log("InitiateOk", 0, 0, 0)
              \/ MayFail("initiate") /\ InitiateErr /\ Log("InitiateErr", 0, 0, 0)
              \/ ~ctxDone /\ TickCheck /\ Log("TickCheck", 0, 0, 0)
@@ -44,7 +51,7 @@ GNext ==
              \/ ~ctxDone /\ MayFail("next") /\ NextFailed /\ Log("NextFailed", 0, 0, 0)
              \/ ~ctxDone /\ InitFailed /\ Log("InitFailed", 0, 0, 0)
              \/ ExitCancelled /\ Log("ExitCancelled", 0, 0, 0)
-             \/ (plan.cancelAt = cur \/ (pc = "idle" /\ nPre = 1)) /\ Cancel /\ Log("Cancel", 0, 0, 0)
+             \/ ((plan.cancelAt = cur /\ (plan.cir => lp = "receiving")) \/ (pc = "idle" /\ nPre = 1)) /\ Cancel /\ Log("Cancel", 0, 0, 0)
              \/ ArriveOk /\ \E t \in States \ Silent, s \in Peers : ArriveNew(t, s) /\ Log("Arrive", t, s, 1)
              \/ ArriveOk /\ \E t \in States \ Silent, s \in Peers : ArriveDup(t, s) /\ Log("Arrive", t, s, 2)
              \/ ArriveOk /\ \E t \in States : ArriveForeign(t) /\ Log("Arrive", t, 0, 1)
